@@ -187,7 +187,7 @@ func validateAggregationMethod(aggMethod AggregationMethod) error {
 }
 
 func validateXFilesFactor(xFilesFactor float32) error {
-	if xFilesFactor < 0 || 1 < xFilesFactor {
+	if math.IsNaN(float64(xFilesFactor)) || xFilesFactor < 0 || 1 < xFilesFactor {
 		return errors.New("invalid XFilesFactor")
 	}
 	return nil
